@@ -105,6 +105,11 @@ def judge(c, transfer, size, thr, prev=False, cancelled=False, provide_size=Fals
                 out.append('c06: partial destination after cancel')
             if prev and d is None:
                 out.append('c06: previous destination content lost after a cancel')
+    # ---- what was wrong at the instant the done event was set (C05 / C06 speak about that instant)
+    if getattr(c, 'nsubmits', 1) == 1:
+        for r in getattr(c, 'at_done', ()):
+            if r not in out:
+                out.append(r)
     # ---- C08
     out.extend(callbacks_reasons(c, provide_size, transfer))
     # ---- C09
